@@ -138,25 +138,56 @@ func (r *Run) checkVersionEntries(cl string, b *model.Bucket, got []xVersionEntr
 			used[found] = true
 			r.checkVersionEntry(cl, b, gs[found], w)
 		}
-		// pass 2: entries whose id the model never learned (never-versioned, suspended era, multi-delete markers)
+		// pass 2: entries whose id the model never learned (never-versioned,
+		// suspended era, multi-delete markers).  The order of a key's entries
+		// is the server's business: pair by kind and content, preferring the
+		// pairing that agrees on IsLatest, and learn an id only when the
+		// pairing is the only possible one.
+		wclass := func(w wantVer) string {
+			if w.v.Marker {
+				return fmt.Sprintf("m|%v", w.cur)
+			}
+			return fmt.Sprintf("v|%s|%v", w.v.Ent.MD5, w.cur)
+		}
+		gclass := func(g xVersionEntry) string {
+			if g.Marker {
+				return fmt.Sprintf("m|%v", g.IsLatest)
+			}
+			return fmt.Sprintf("v|%s|%v", strings.Trim(g.ETag, `"`), g.IsLatest)
+		}
+		wcount, gcount := map[string]int{}, map[string]int{}
+		for _, w := range rest {
+			wcount[wclass(w)]++
+		}
+		for i, g := range gs {
+			if !used[i] {
+				gcount[gclass(g)]++
+			}
+		}
 		for _, w := range rest {
 			found := -1
-			for i, g := range gs {
-				if used[i] || g.Marker != w.v.Marker {
-					continue
+			for pass := 0; pass < 2 && found < 0; pass++ {
+				for i, g := range gs {
+					if used[i] || g.Marker != w.v.Marker {
+						continue
+					}
+					if !w.v.Marker && strings.Trim(g.ETag, `"`) != w.v.Ent.MD5 {
+						continue
+					}
+					if pass == 0 && g.IsLatest != w.cur {
+						continue
+					}
+					found = i
+					break
 				}
-				if !w.v.Marker && strings.Trim(g.ETag, `"`) != w.v.Ent.MD5 {
-					continue
-				}
-				found = i
-				break
 			}
 			if found < 0 {
 				r.fail(cl, "a stored version is missing from the version listing", fmt.Sprintf("%q %s", k, descWant([]wantVer{w})), descGot(gs))
 			}
 			used[found] = true
 			r.checkVersionEntry(cl, b, gs[found], w)
-			if b.Versioning != "" && gs[found].VersionID != "null" && gs[found].VersionID != "" && !r.allIDs[gs[found].VersionID] {
+			unique := wcount[wclass(w)] == 1 && gcount[gclass(gs[found])] == 1
+			if unique && b.Versioning != "" && gs[found].VersionID != "null" && gs[found].VersionID != "" && !r.allIDs[gs[found].VersionID] {
 				w.v.ID = gs[found].VersionID
 				r.allIDs[w.v.ID] = true
 				r.verIDs[b.Name+"/"+k] = append(r.verIDs[b.Name+"/"+k], w.v.ID)
